@@ -34,6 +34,14 @@ def run(ctx):
     st = ctx.vh_json("selftest-eexec", os.path.join(d, out))
     ctx.extra["cipher_selftest"] = st
     # 3. layouts
+    eexec_layouts(ctx, q)
+    cov_part(ctx, q)
+
+
+def eexec_layouts(ctx, q, only=None, how_prefix="", count=False):
+    """MC_Eexec layouts replayed into the library; `only` keeps the disagreements of some plaintexts
+    (used by C03 for stop inside a section and by C11 for the limits inside a section)."""
+    d = ctx.specdir()
     out, base = "eexec.ndjson", "eexec.base.json"
     cfg = ("CONSTANTS\n" + pscommon.ps_consts(ctx) +
            '  Tier = "%s"\n  OutFile = "%s"\n  BaseFile = "%s"\n  BaseHeap <- FreshHeap\n'
@@ -42,10 +50,17 @@ def run(ctx):
     ctx.tlc("MC_Eexec", cfg, label="eexec-layouts", timeout=1200)
     total = None
     for k in range(1 if q else 4):
-        summ = ctx.vh_json("replay-eexec", "-base", os.path.join(d, base), "-seed", ctx.seed + k, os.path.join(d, out))
-        pscommon.absorb(ctx, summ, "vh replay-eexec (seed %d)" % (ctx.seed + k), "MC_Eexec / PSMachine!ExecOp eexec")
+        summ = ctx.vh_json("replay-eexec", *(("-count",) if count else ()), "-base", os.path.join(d, base), "-seed", ctx.seed + k,
+                           os.path.join(d, out))
+        if only is not None:
+            keep = tuple(("plaintext#%d " % p) if isinstance(p, int) else p for p in only)
+            summ["by_sig"] = {s: n for s, n in (summ.get("by_sig") or {}).items() if any(x in s for x in keep)}
+            summ["disagreements"] = [g for g in (summ.get("disagreements") or []) if any(x in g["sig"] for x in keep)]
+        pscommon.absorb(ctx, summ, how_prefix + "vh replay-eexec (seed %d)" % (ctx.seed + k), "MC_Eexec / PSMachine!ExecOp eexec")
         total = summ
-    ctx.extra["layouts"] = total["vectors"]
+    ctx.extra["eexec_layouts"] = total["vectors"]
+    if only is not None:
+        return
     ctx.extra["forms"] = total["per_op"]
     # negative control: expect a different stack
     bad = []
@@ -65,6 +80,9 @@ def run(ctx):
     ctx.extra["negative_controls"] = [{"corrupted_vectors": len(bad), "rejected": s["n_disagree"]}]
     if not bad or s["n_disagree"] != len(bad):
         raise core.Broken("negative control: corrupted eexec expectations were accepted")
+
+
+def cov_part(ctx, q):
     # 4. cipher coverage through the library: random binary data read back with readstring
     cov = ctx.vh_json("eexec-coverage", 20000 if q else 2000000, ctx.seed)
     ctx.extra["cipher_pairs_through_library"] = cov["pairs"]
